@@ -713,6 +713,45 @@ class ParserInit(Contract):
 
 
 @register
+class TransformerInit(Contract):
+    """every field the callbacks read is set by the constructor: the two flags as given, a Quoter of its own"""
+    target = "mappyfile.transformer.MapfileTransformer.__init__"
+    props = ("C12", "C13", "C02")
+
+    def build(self, E, case):
+        from mappyfile.transformer import MapfileTransformer
+        return (MapfileTransformer.__new__(MapfileTransformer), E.bool("pos"), E.bool("com")), {}
+
+    def ensures(self, E, case, args, kwargs, out):
+        from mappyfile.quoter import Quoter
+        t, pos, com = args
+        yield "returns", out.kind == "return"
+        if out.kind == "return":
+            yield "flags-stored", S.and_(S.eq(t.include_position, pos), S.eq(t.include_comments, com))
+            yield "own-quoter", type(getattr(t, "quoter", None)) is Quoter
+
+
+@register
+class ValidatorInit(Contract):
+    """a new Validator starts with empty schema caches of its own (nothing shared between instances, C12)"""
+    target = "mappyfile.validator.Validator.__init__"
+    props = ("C12", "C09", "C07")
+
+    def build(self, E, case):
+        from mappyfile.validator import Validator
+        return (Validator.__new__(Validator),), {}
+
+    def ensures(self, E, case, args, kwargs, out):
+        v = args[0]
+        yield "returns", out.kind == "return"
+        if out.kind == "return":
+            a, b = getattr(v, "schemas", None), getattr(v, "expanded_schemas", None)
+            def empty(x):
+                return (isinstance(x, dict) and not x) or (hasattr(x, "entries") and not x.entries and x.tail is None)
+            yield "empty-caches-of-its-own", empty(a) and empty(b) and a is not b
+
+
+@register
 class ToDictInit(Contract):
     target = "mappyfile.transformer.MapfileToDict.__init__"
     props = ("C12", "C13")
